@@ -299,7 +299,14 @@ def main():
         stats[cmp_["status"]] += 1
         stats["compared_calls"] += cmp_.get("compared", 0)
         stats["abs_only"] += cmp_.get("abs_only", 0)
-        if cmp_["status"] in ("diverge", "outoffuel") and first_div is None:
+        if cmp_["status"] in ("diverge", "outoffuel") and h.meta.get("outside_contract"):
+            # a history that is outside this property's quantifier on purpose (it exercises the model, e.g. merge() of
+            # graphs that are not trees): a disagreement is reported in the evidence, it is not this property's alarm
+            stats["outside_contract_diverge"] = stats.get("outside_contract_diverge", 0) + 1
+            stats.setdefault("outside_contract_first", {"history": h.hid, "index": cmp_.get("index"),
+                                                        "model": str(cmp_.get("model"))[:300], "impl": str(cmp_.get("impl"))[:300]})
+            stats[cmp_["status"]] -= 1
+        elif cmp_["status"] in ("diverge", "outoffuel") and first_div is None:
             first_div = (h, cmp_)
         finding = prop.oracle(h, il_full if prop.oracle_beyond_limits else il)
         if finding is not None:
